@@ -54,6 +54,10 @@ class Plan:
         # what scheduleForAgents returns: "list", "tuple" or "iter" (a one-shot iterator; the
         # interface documents "an iterable which is a permutation of self.agents")
         self.schedule_kind = schedule_kind
+        # tables of successive attempts of one simulate(maxIterations=n) call: attempt i uses
+        # attempts[min(i, len-1)]; the log is that of the last attempt
+        self.attempts = [table]
+        self.attempt = -1
         self.log = []
         self.sim = None
         self.calls = 0
@@ -146,6 +150,11 @@ class LoggingSimulation(Simulation):
     def __init__(self, scene, *, plan, **kwargs):
         self.plan = plan
         plan.sim = self
+        plan.attempt += 1
+        plan.table = plan.attempts[min(plan.attempt, len(plan.attempts) - 1)]
+        plan.log = []
+        plan.destroyed = 0
+        plan.calls_step = -1
         self._pos = {}
         self._vel = {}
         super().__init__(scene, **kwargs)
@@ -242,8 +251,10 @@ def state_is_pristine():
             and not veneer.evaluatingRequirement and not veneer.runningScenarios)
 
 
-def run(scenario, plan, *, maxSteps, timestep, raiseGuardViolations=False):
-    """One simulation of a fresh scene of `scenario` under `plan`.
+def run(scenario, plan, *, maxSteps, timestep, raiseGuardViolations=False, scene=None,
+        maxIterations=1):
+    """One simulation of a fresh scene of `scenario` (or of the given, already used `scene`)
+    under `plan`.
 
     Returns a dict: status in {"done", "rejected", "guard", "error", "stall"}; for "guard" the
     exception class name; for "error" the exception (signature + repr); always the log and the
@@ -257,14 +268,16 @@ def run(scenario, plan, *, maxSteps, timestep, raiseGuardViolations=False):
     _runs[0] += 1
     if _runs[0] % GC_EVERY == 0 or not state_is_pristine():
         reset_scenic_state(collect=True)
-    scene, _ = scenario.generate(maxIterations=1, verbosity=0)
+    if scene is None:
+        scene, _ = scenario.generate(maxIterations=1, verbosity=0)
     simulator = LoggingSimulator()
     simulator.plan = plan
     out = {"status": None}
     _CUR = plan
     try:
         sim = simulator.simulate(scene, maxSteps=maxSteps, timestep=timestep, verbosity=0,
-                                 raiseGuardViolations=raiseGuardViolations)
+                                 raiseGuardViolations=raiseGuardViolations,
+                                 maxIterations=maxIterations)
         if sim is None:
             out["status"] = "rejected"
         else:
@@ -303,6 +316,8 @@ def run(scenario, plan, *, maxSteps, timestep, raiseGuardViolations=False):
     # hygiene: a top-level scenario left marked as running would make every later simulation
     # of this compiled scenario fail; the caller recompiles (and reports it)
     out["left_running"] = bool(getattr(scene.dynamicScenario, "_isRunning", False))
+    out["scene"] = scene
+    out["attempts"] = plan.attempt + 1
     out["log"] = plan.log
     out["time"] = plan.sim.currentTime if plan.sim is not None else None
     out["destroyed"] = plan.destroyed
